@@ -1,8 +1,8 @@
 From Coq Require Import Extraction ExtrOcamlBasic.
 From Texel Require Import Chess.Types Chess.Position Chess.BitBoard Chess.MoveGen Chess.Fen Chess.Spec
-  RevGen.RevGen RevGen.RevSpec.
+  RevGen.RevGen RevGen.RevSpec RevGen.RevPremise.
 Extraction Language OCaml.
 Extraction "rev_model.ml"
   positionOfBoard zkDummy genMoves candidates revMoveList genMovesNoUndoInfo knownInvalid pieceCountsValid
   abs legal_specb make_spec accepted step_spec fixup_spec expected_undo counts_ok rev_domain
-  complete_required complete_at consistent_at spos_eqb.
+  complete_required complete_at consistent_at spos_eqb moveFactsb wfrevb revMoveList makeMove fixupEPSquare.
